@@ -190,6 +190,18 @@ def gen_gpt(thorough=False):
     yield 'fat-like num_fats only', bytes(bytearray(mbr([prot]))[:0x10] +
                                           b'\x02' + bytearray(mbr([prot]))[
                                               0x11:])
+    # boot-code bytes are irrelevant fields: only (2, 0xF8) at 0x10 / 0x15
+    # makes the sector a FAT boot sector
+    for nf, media in ((2, 0xF0), (2, 0xF9), (2, 0xFF), (2, 0x00), (1, 0xF8),
+                      (3, 0xF8), (0xF8, 2)):
+        for lbl, tbl in (('invalid boot flag', [pte(boot=0x7f,
+                                                    ostype=0x83)]),
+                         ('no partition', []),
+                         ('clean', [prot])):
+            b = bytearray(mbr(tbl))
+            b[0x10], b[0x15] = nf, media
+            yield 'mbr %s, boot code bytes (%d, 0x%02x)' % (lbl, nf,
+                                                             media), bytes(b)
     for n in (0, 16, 21, 22, 446, 510, 511):
         yield 'mbr truncated %d' % n, mbr([prot])[:n]
     yield 'mbr exactly 512', mbr([prot], length=512)
@@ -244,6 +256,21 @@ def gen_vhdx(thorough=False):
     yield 'vhdx metadata right after header', vhdx(meta_off=256 * KiB)
     yield 'vhdx metadata at 1MiB', vhdx(meta_off=1024 * KiB)
     yield 'vhdx item further away', vhdx(item_off=128 * KiB)
+    # table order: the wanted entry first / in the middle, others after it
+    bat = uuid.UUID('2DC27766-F623-4200-9D64-115E9BFD4A08')
+    item = uuid.UUID('CAA16737-FA36-4D43-B3B6-33F0AA44E76B')
+    yield 'vhdx metadata entry first', vhdx(
+        size=555, regions=[(METAREGION, 320 * KiB), (bat, 1024 * KiB)])
+    yield 'vhdx metadata entry in the middle', vhdx(
+        size=556, regions=[(bat, 2048 * KiB), (METAREGION, 320 * KiB),
+                           (bat, 1024 * KiB)])
+    yield 'vhdx size item first', vhdx(
+        size=557, meta_entries=[(VDS_ITEM, 64 * KiB, 8),
+                                (item, 65536 + 4096, 8)])
+    yield 'vhdx size item in the middle', vhdx(
+        size=558, meta_entries=[(item, 65536 + 8192, 8),
+                                (VDS_ITEM, 64 * KiB, 8),
+                                (item, 65536 + 4096, 8)])
     # compact layouts (the size item lies inside the first 64 KiB of the
     # metadata region, right behind a short table)
     yield 'vhdx compact, item at 2048', vhdx(item_off=2048, size=777)
